@@ -35,6 +35,9 @@ type harnessSummary struct {
 	SpuriousCex     int            `json:"counterexamples_not_reproduced"`
 	Violations      int            `json:"violations"`
 	KnownFindings   int            `json:"known_findings"`
+	CrossAgree      int64          `json:"second_solver_confirmed_unsat"`
+	CrossUnknown    int64          `json:"second_solver_unknown"`
+	CrossDisagree   int64          `json:"second_solver_disagreed"`
 }
 
 type evidence struct {
@@ -60,7 +63,8 @@ func (e *evidence) addHarness(res *interp.HarnessResult) *harnessSummary {
 	hs := &harnessSummary{Name: res.Name, Paths: len(res.Paths), Completed: res.Completed, Edges: res.Edges, Discharged: res.Discharged,
 		ConcreteTrue: res.ConcreteTrue, Queries: res.Stats.Queries, Sat: res.Stats.Sat, Unsat: res.Stats.Unsat, Unknown: res.Stats.Unknown,
 		SolverSeconds: float64(res.Stats.Nanos) / 1e9, WallSeconds: res.Wall.Seconds(), Unmodelled: res.Unmodelled, Unknowns: res.Unknowns,
-		BoundExceeded: len(res.BoundExceeded), Truncated: res.PathsTruncated}
+		BoundExceeded: len(res.BoundExceeded), Truncated: res.PathsTruncated,
+		CrossAgree: res.CrossAgree, CrossUnknown: res.CrossUnknown, CrossDisagree: res.CrossDisagree}
 	for c := range res.Covers {
 		hs.Covers = append(hs.Covers, c)
 	}
